@@ -32,7 +32,10 @@ KM ==
 Probes == {<<97, 12354, 97>>, <<12354, 97, 97, 97, 97>>, <<97>>, <<28450, 97, 12354, 49>>}
 Case == LET m == Convert(KM)  px == SetToSeq(Probes) IN
         [km |-> KM, expect |-> m, probes |-> [i \in 1..Len(px) |-> [text |-> px[i], scores |-> RefScores(m, px[i])]]]
-Emit == phase = 1 => PrintT(<<"CASE", ToJson(Case)>>)
+\* KyTea files without any character n-gram or without any type n-gram carry no such dictionary at all; the converter
+\* reports them as unusable ("no character dictionary").  They are outside Convert's domain and are not generated.
+InDomain == KM.char_ngrams # <<>> /\ KM.type_ngrams # <<>>
+Emit == (phase = 1 /\ InDomain) => PrintT(<<"CASE", ToJson(Case)>>)
 \* a converted model is always well-formed
-WF == phase = 1 => WellFormed(Convert(KM))
+WF == (phase = 1 /\ InDomain) => WellFormed(Convert(KM))
 =============================================================================
